@@ -1,4 +1,8 @@
 import AsherahVerif.Proofs.CacheLookup
+import AsherahVerif.Proofs.ExtraCacheMon
+import AsherahVerif.Proofs.ExtraCacheChan
+import AsherahVerif.Proofs.ExtraCacheLru
+import AsherahVerif.Proofs.ExtraCacheLfu
 /-
 C15 — Generic cache: bounded map with exact eviction notifications, for every policy.
 
@@ -257,5 +261,399 @@ example : demo.2 = [(.unit, []), (.val 10, []), (.unit, []), (.unit, [(2, 20)]),
 
 example : Inv (mk .tinylfu 3 5 2 0) ∧ (mk .tinylfu 3 5 2 0).closing = false :=
   ⟨inv_mk _ _ _ _ _ (by decide), rfl⟩
+
+/-! ### refinement: the model behaves like a bounded map with explicit leave events -/
+
+section Refinement
+open AsherahVerif.CacheSpec
+
+/-- **the monitor accepts every trace of the model** (refinement theorem).  For every policy,
+capacity ≥ 1, expiry, oracle stream and operation list, folding the observer specification
+`CacheSpec.Obs.step` — the monitor the driver runs on the IMPLEMENTATION's traces: a bounded map
+seen only through operations, results and eviction callbacks — over the model's own
+(op, result, callbacks) outputs never rejects, and the observer's map IS the model's `items` as a
+finite map key ↦ value (distinct keys, same size, same value for every key), with the same
+capacity and closed flag. -/
+theorem monitor_accepts_model (kind : Kind) (cap expiry protCap winCap : Nat) (hcap : 1 ≤ cap)
+    (ops : List (Op × (Nat → Bool))) :
+    ∃ o : Obs, monTrace { cap := cap } (trace (mk kind cap expiry protCap winCap) ops) = some o ∧
+      o.cap = cap ∧ o.closed = (reach kind cap expiry protCap winCap ops).1.closing ∧
+      (mkeys o.m).Nodup ∧ o.m.length = (reach kind cap expiry protCap winCap ops).1.items.length ∧
+      ∀ k, find o.m k = (lookup (reach kind cap expiry protCap winCap ops).1.items k).map (·.val) := by
+  obtain ⟨o, h1, hs⟩ := monRun_accepts (inv_mk kind cap expiry protCap winCap hcap) (sim_mk kind cap expiry protCap winCap) ops
+  rw [monRun_eq] at h1
+  exact ⟨o, h1, monTrace_cap _ _ _ h1, hs.closed, hs.map.nd, hs.map.len, hs.map.pt⟩
+
+/-- the trace of the model is the list of results and callbacks `run` returns, with the operations. -/
+theorem trace_is_run (c : Cache) (ops : List (Op × (Nat → Bool))) :
+    (run c ops).2 = (trace c ops).map fun e => (e.2.1, e.2.2) := trace_run c ops
+
+/-- **what the history alone says a key holds is what the cache holds**: `held k` replays only
+the observable events (a callback for `k` ⇒ gone; `Set k v` on an open cache ⇒ `v`; `Delete k`,
+`Close` ⇒ gone) and agrees with the model's `byKey` and closed flag after ANY operation sequence. -/
+theorem held_is_model (kind : Kind) (cap expiry protCap winCap : Nat) (hcap : 1 ≤ cap)
+    (ops : List (Op × (Nat → Bool))) (k : Nat) :
+    held k (trace (mk kind cap expiry protCap winCap) ops) =
+      ((lookup (reach kind cap expiry protCap winCap ops).1.items k).map (·.val),
+       (reach kind cap expiry protCap winCap ops).1.closing) := by
+  have := held_fold (inv_mk kind cap expiry protCap winCap hcap) (sim_mk kind cap expiry protCap winCap) k ops
+  unfold held
+  exact this
+
+/-- **a lookup returns the most recently set value unless the key left**: after any history, a
+`Get k` that hits returns exactly the value of the last `Set k _` that was not followed by an
+eviction/expiry callback for `k`, a `Delete k` or a `Close` — and fires no callback; a `Get k` that
+misses means that there is no such value, or the cache is closed, or the value leaves right now and
+is reported (expiry: one callback `(k, v)` with the value held).  There is no third outcome. -/
+theorem get_returns_last_set (kind : Kind) (cap expiry protCap winCap : Nat) (hcap : 1 ≤ cap)
+    (ops : List (Op × (Nat → Bool))) (k : Nat) (orc : Nat → Bool) :
+    let tr := trace (mk kind cap expiry protCap winCap) ops
+    let out := step (reach kind cap expiry protCap winCap ops).1 (.get k) orc
+    (∀ v, out.res = .val v → held k tr = (some v, false) ∧ out.cbs = []) ∧
+    (out.res = .miss → (held k tr).1 = none ∨ (held k tr).2 = true ∨
+        ∃ v, (held k tr).1 = some v ∧ out.cbs = [(k, v)]) ∧
+    (out.res = .miss ∨ ∃ v, out.res = .val v) := by
+  intro tr out
+  have hh : held k tr = _ := held_is_model kind cap expiry protCap winCap hcap ops k
+  have hg := get_spec (c := (reach kind cap expiry protCap winCap ops).1) k orc
+  simp only at hg
+  cases hl : lookup (reach kind cap expiry protCap winCap ops).1.items k with
+  | none =>
+    rw [hl] at hg hh
+    refine ⟨?_, fun _ => Or.inl (by rw [hh]; rfl), Or.inl hg.1⟩
+    intro v hv; rw [hg.1] at hv; cases hv
+  | some it =>
+    rw [hl] at hg hh
+    simp only at hg
+    by_cases hc : (reach kind cap expiry protCap winCap ops).1.closing = true
+    · rw [if_pos hc] at hg
+      refine ⟨?_, fun _ => Or.inr (Or.inl (by rw [hh]; exact hc)), Or.inl hg.1⟩
+      intro v hv; rw [hg.1] at hv; cases hv
+    · rw [if_neg hc] at hg
+      split at hg
+      · refine ⟨?_, fun _ => Or.inr (Or.inr ⟨it.val, by rw [hh]; rfl, hg.2.1⟩), Or.inl hg.1⟩
+        intro v hv; rw [hg.1] at hv; cases hv
+      · refine ⟨?_, ?_, Or.inr ⟨it.val, hg.1⟩⟩
+        · intro v hv
+          rw [hg.1] at hv; injection hv with hv
+          refine ⟨?_, hg.2.1⟩
+          rw [hh, ← hv]
+          have : (reach kind cap expiry protCap winCap ops).1.closing = false := by simpa using hc
+          rw [this]; rfl
+        · intro hm; rw [hg.1] at hm; cases hm
+
+/-- **every entry that leaves is reported exactly once, with the value it held**.  For any history
+and any next operation: the callbacks of that operation name distinct keys; each named key held
+exactly the reported value before the operation and holds nothing after it (so it cannot be
+reported again unless it is set again); and a held value survives the operation unchanged unless it
+is reported by a callback, overwritten by `Set` on that key, or removed by `Delete` of that key
+(in particular `Close` and evictions never drop an entry silently). -/
+theorem callbacks_exact (kind : Kind) (cap expiry protCap winCap : Nat) (hcap : 1 ≤ cap)
+    (ops : List (Op × (Nat → Bool))) (op : Op) (orc : Nat → Bool) :
+    let tr := trace (mk kind cap expiry protCap winCap) ops
+    let tr' := trace (mk kind cap expiry protCap winCap) (ops ++ [(op, orc)])
+    let out := step (reach kind cap expiry protCap winCap ops).1 op orc
+    tr' = tr ++ [(op, out.res, out.cbs)] ∧
+    (out.cbs.map (·.1)).Nodup ∧
+    (∀ k v, (k, v) ∈ out.cbs → (held k tr).1 = some v ∧ (held k tr').1 = none) ∧
+    (∀ k v, (held k tr).1 = some v →
+      (k, v) ∈ out.cbs ∨ (held k tr').1 = some v ∨ (∃ v', op = .set k v') ∨ op = .del k) := by
+  intro tr tr' out
+  have h0 := inv_mk kind cap expiry protCap winCap hcap
+  have hs0 := sim_mk kind cap expiry protCap winCap
+  obtain ⟨o, o', _, hs, hstep, hs'⟩ := step_view h0 hs0 ops op orc
+  have htr : tr' = tr ++ [(op, out.res, out.cbs)] := by
+    show trace _ (ops ++ [(op, orc)]) = _
+    rw [trace_append]; rfl
+  have hheld : ∀ k, held k tr = (find o.m k, o.closed) := fun k => held_eq_obs h0 hs0 rfl rfl ops hs k
+  have hheld' : ∀ k, (held k tr').1 = find o'.m k := by
+    intro k
+    rw [htr]
+    unfold held
+    rw [List.foldl_append]
+    have := hheld k
+    unfold held at this
+    rw [this]
+    simp only [List.foldl_cons, List.foldl_nil]
+    have hk := obs_step_key k hstep
+    exact (congrArg Prod.fst hk).symm
+  obtain ⟨e1, e2, e3⟩ := obs_step_exact hstep
+  refine ⟨htr, e1, ?_, ?_⟩
+  · intro k v hm
+    have := e2 k v hm
+    rw [hheld k, hheld' k]; exact this
+  · intro k v hv
+    rw [hheld k] at hv
+    have := e3 k v hv
+    rw [hheld' k]; exact this
+
+end Refinement
+
+/-- non-vacuity: on a concrete history the monitor's verdict and the per-key view are computed. -/
+example :
+    let ops : List (Op × (Nat → Bool)) := [(.set 1 10, fun _ => false), (.set 2 20, fun _ => false),
+      (.set 1 11, fun _ => false), (.set 3 30, fun _ => false)]
+    let tr := AsherahVerif.CacheSpec.trace (mk .lru 2 0 0 0) ops
+    tr.map (·.2.2) = [[], [], [], [(2, 20)]] ∧
+    AsherahVerif.CacheSpec.held 1 tr = (some 11, false) ∧ AsherahVerif.CacheSpec.held 2 tr = (none, false) ∧
+    (AsherahVerif.CacheSpec.monTrace { cap := 2 } tr).map (·.m) = some [(1, 11), (3, 30)] := by decide
+
+/-- the monitor is not trivially accepting: it rejects a trace in which an evicted entry is reported
+with a wrong value, and one in which an entry vanishes without a callback. -/
+example : AsherahVerif.CacheSpec.monTrace { cap := 1 }
+    [(.set 1 10, .unit, []), (.set 2 20, .unit, [(1, 11)])] = none := by decide
+example : AsherahVerif.CacheSpec.monTrace { cap := 1 }
+    [(.set 1 10, .unit, []), (.set 2 20, .unit, [])] = none := by decide
+
+/-! ### the asynchronous eviction channel (cache.go `events`, `processEvents`, `shutdown`) -/
+
+section Channel
+open AsherahVerif.CacheChan
+
+/-- **no deadlock**: in the 2-party protocol of the asynchronous cache (mutex holder sending on the
+unbuffered `events` channel / the `processEvents` goroutine whose callback never takes the cache
+mutex; `Close` sends `closeCache` and waits on the WaitGroup) every reachable state that is not
+final has an enabled step — for every list of client operations and every schedule. -/
+theorem events_no_deadlock (ops : List Opn) (sched : List Act)
+    (hnf : ¬ final (CacheChan.run false (init ops) sched)) :
+    ∃ a s', CacheChan.step false (CacheChan.run false (init ops) sched) a = some s' :=
+  enabled_of_inv _ (CacheChan.run_inv _ (inv_init ops) sched) hnf
+
+/-- **no livelock**: every step strictly decreases a natural-number measure, so every execution is
+finite; with `events_no_deadlock` every maximal execution ends in a final state (all operations
+done, mutex free, consumer blocked on an open channel or exited after `Close`). -/
+theorem events_terminate (s s' : CacheChan.St) (a : Act) (hs : CacheChan.step false s a = some s') :
+    measure s' < measure s := step_decreases s s' a hs
+
+/-- **callbacks are delivered in send order, at most one behind**: at every reachable state the
+eviction events sent so far are exactly the callbacks completed so far followed by the (at most
+one) callback currently running. -/
+theorem events_in_order (ops : List Opn) (sched : List Act) :
+    let s := CacheChan.run false (init ops) sched
+    s.sent = s.delivered ++ inflight s.cons ∧ (inflight s.cons).length ≤ 1 := by
+  intro s
+  refine ⟨(CacheChan.run_inv _ (inv_init ops) sched).order, ?_⟩
+  cases s.cons <;> simp [inflight]
+
+/-- **when `Close` has returned every callback has run**: in every reachable state in which the
+cache is closing and the mutex is free again, the consumer goroutine has exited and the callbacks
+completed are exactly the events sent. -/
+theorem close_returns_after_all_callbacks (ops : List Opn) (sched : List Act) :
+    let s := CacheChan.run false (init ops) sched
+    s.closing = true → s.prod = .idle → s.cons = .exited ∧ s.delivered = s.sent := by
+  intro s hc hp
+  have h := CacheChan.run_inv _ (inv_init ops) sched
+  have hex : s.cons = .exited := by
+    rcases h.cl hc with h1 | h1
+    · rw [hp] at h1; cases h1
+    · exact h1
+  refine ⟨hex, ?_⟩
+  have := h.order
+  rw [hex] at this
+  simpa [inflight] using this.symm
+
+/-- the assumption is necessary: if the eviction callback needed the cache mutex, a `Set` that
+evicts two entries would block forever (producer waits for the consumer to receive, consumer waits
+for the mutex): a reachable, non-final state without any enabled step. -/
+theorem deadlock_if_callback_locks :
+    let s := CacheChan.run true (init [.work [(1, 1), (2, 2)]]) [.acquire, .send]
+    s.ops = [] ∧ s.prod = .sending [(2, 2)] false ∧ s.cons = .callback (1, 1) ∧
+    ∀ a, CacheChan.step true s a = none := by
+  refine ⟨by decide, by decide, by decide, ?_⟩
+  intro a; cases a <;> decide
+
+/-- non-vacuity: a run with two evicting operations and a `Close` reaches the final state with all
+three callbacks delivered in order. -/
+example :
+    let s := CacheChan.run false (init [.work [(1, 10)], .work [], .close [(2, 20), (3, 30)]])
+      [.acquire, .send, .finish, .acquire, .finish, .callbackDone, .acquire, .send, .callbackDone, .send,
+       .finish, .callbackDone, .send, .wgDone]
+    s.delivered = [(1, 10), (2, 20), (3, 30)] ∧ s.sent = s.delivered ∧ s.cons = .exited ∧ s.prod = .idle ∧
+    s.ops = [] := by decide
+
+end Channel
+
+/-! ### LRU with real recency -/
+
+section Recency
+open AsherahVerif.CacheSpec
+
+/-- **the LRU list IS recency order**.  `lastTouch k tr` is a ghost function of the observable
+history alone: 1 + the index of the last event that used `k` (a `Set k _`, or a `Get k` that
+returned a value).  After ANY operation sequence on an LRU cache the policy's list consists of
+exactly the live keys, without repetition, in strictly decreasing order of `lastTouch` (most recently
+used first), and every one of them has been touched. -/
+theorem lru_order_is_recency (cap expiry protCap winCap : Nat) (hcap : 1 ≤ cap)
+    (ops : List (Op × (Nat → Bool))) :
+    let c := (reach .lru cap expiry protCap winCap ops).1
+    let tr := trace (mk .lru cap expiry protCap winCap) ops
+    ∃ o, c.pol = .lru o ∧ o.Nodup ∧ (∀ k, k ∈ o ↔ k ∈ keysOf c.items) ∧
+      o.Pairwise (fun a b => lastTouch b tr < lastTouch a tr) ∧ ∀ a, a ∈ o → 0 < lastTouch a tr := by
+  intro c tr
+  have h0 := inv_mk .lru cap expiry protCap winCap hcap
+  have hJ0 : SortedLru (mk .lru cap expiry protCap winCap) [] :=
+    ⟨[], rfl, List.Pairwise.nil, fun a ha => by cases ha⟩
+  obtain ⟨o, hp, hs⟩ := lru_run h0 hJ0 ops
+  rw [List.nil_append] at hs
+  have hi := (run_inv h0 ops).1
+  refine ⟨o, hp, ?_, ?_, hs.1, hs.2⟩
+  · have := hi.polNodup; rw [hp] at this; exact this
+  · intro k; have := hi.same k; rw [hp] at this; exact this
+
+/-- **the LRU victim is the least recently used live key**: after any history, the key the policy
+would evict has a strictly smaller last-touch index than every other live key. -/
+theorem lru_victim_is_least_recently_used (cap expiry protCap winCap : Nat) (hcap : 1 ≤ cap)
+    (ops : List (Op × (Nat → Bool))) (b : Bool) (v : Nat)
+    (hv : ((reach .lru cap expiry protCap winCap ops).1.pol.victim b).1 = some v) :
+    let c := (reach .lru cap expiry protCap winCap ops).1
+    let tr := trace (mk .lru cap expiry protCap winCap) ops
+    v ∈ keysOf c.items ∧ ∀ k, k ∈ keysOf c.items → k ≠ v → lastTouch v tr < lastTouch k tr := by
+  intro c tr
+  obtain ⟨o, hp, _, hsame, hpw, _⟩ := lru_order_is_recency cap expiry protCap winCap hcap ops
+  have hv' : o.getLast? = some v := by
+    have : c.pol.victim b = (o.getLast?, .lru o) := by
+      show (reach .lru cap expiry protCap winCap ops).1.pol.victim b = _
+      rw [hp]; rfl
+    rw [show ((reach .lru cap expiry protCap winCap ops).1.pol.victim b) = c.pol.victim b from rfl, this] at hv
+    exact hv
+  obtain ⟨pre, hpre⟩ := List.getLast?_eq_some_iff.mp hv'
+  refine ⟨(hsame v).mp (by rw [hpre]; simp), ?_⟩
+  intro k hk hne
+  have hko := (hsame k).mpr hk
+  rw [hpre] at hko hpw
+  rw [List.pairwise_append] at hpw
+  rcases List.mem_append.mp hko with h1 | h1
+  · exact hpw.2.2 k h1 v (by simp)
+  · simp at h1; exact absurd h1 hne
+
+/-- **what a full LRU cache evicts is its least recently used entry**: the callback fired by a
+`Set` names a key whose last use is older than that of every other entry cached at that moment. -/
+theorem lru_evicts_least_recently_used (cap expiry protCap winCap : Nat) (hcap : 1 ≤ cap)
+    (ops : List (Op × (Nat → Bool))) (k v : Nat) (orc : Nat → Bool) :
+    let c := (reach .lru cap expiry protCap winCap ops).1
+    let tr := trace (mk .lru cap expiry protCap winCap) ops
+    ∀ e, e ∈ (step c (.set k v) orc).cbs →
+      e.1 ∈ keysOf c.items ∧ ∀ j, j ∈ keysOf c.items → j ≠ e.1 → lastTouch e.1 tr < lastTouch j tr := by
+  intro c tr e he
+  have hi : Inv c := (run_inv (inv_mk .lru cap expiry protCap winCap hcap) ops).1
+  simp only [step] at he
+  split at he
+  · cases he
+  · split at he
+    · cases he
+    · split at he
+      · next hfull =>
+        have hne : c.items ≠ [] := by
+          intro e'; rw [e'] at hfull; simp at hfull; have := hi.capPos; omega
+        obtain ⟨it, hit, hvic, hev⟩ := evict_spec hi.toBij hne (orc 0)
+        rw [hev] at he
+        simp only [List.mem_singleton] at he
+        subst he
+        exact lru_victim_is_least_recently_used cap expiry protCap winCap hcap ops (orc 0) it.key hvic
+      · cases he
+
+/-- non-vacuity: a concrete LRU history, its last-touch stamps and the victim. -/
+example :
+    let ops : List (Op × (Nat → Bool)) := [(.set 1 10, fun _ => false), (.set 2 20, fun _ => false),
+      (.set 3 30, fun _ => false), (.get 1, fun _ => false), (.get 9, fun _ => false), (.set 2 21, fun _ => false)]
+    let tr := trace (mk .lru 3 0 0 0) ops
+    (reach .lru 3 0 0 0 ops).1.pol = .lru [2, 1, 3] ∧
+    [lastTouch 2 tr, lastTouch 1 tr, lastTouch 3 tr, lastTouch 9 tr] = [6, 4, 3, 0] ∧
+    (step (reach .lru 3 0 0 0 ops).1 (.set 4 40) fun _ => false).cbs = [(3, 30)] := by decide
+
+end Recency
+
+/-! ### LFU with real use counts -/
+
+section Frequency
+open AsherahVerif.CacheSpec
+
+/-- **the LFU frequencies ARE use counts**.  `useCount k tr` is a ghost function of the observable
+history alone: the number of uses of `k` (`Set k _` on an open cache, `Get k` hits) since `k` was
+last admitted, i.e. since the last callback for `k`, `Delete k` or `Close`.  After ANY operation
+sequence on an LFU cache the policy's entries are exactly the live keys (no repetition), each paired
+with its `useCount`; keys that are not cached have count 0; and the entries are listed in increasing
+order of `lastTouch` (oldest use first). -/
+theorem lfu_counts_are_use_counts (cap expiry protCap winCap : Nat) (hcap : 1 ≤ cap)
+    (ops : List (Op × (Nat → Bool))) :
+    let c := (reach .lfu cap expiry protCap winCap ops).1
+    let tr := trace (mk .lfu cap expiry protCap winCap) ops
+    ∃ e, c.pol = .lfu e ∧ (mkeys e).Nodup ∧ (∀ k, k ∈ mkeys e ↔ k ∈ keysOf c.items) ∧
+      (∀ k f, (k, f) ∈ e → f = useCount k tr) ∧ (∀ k, k ∉ keysOf c.items → useCount k tr = 0) ∧
+      (mkeys e).Pairwise (fun a b => lastTouch a tr < lastTouch b tr) := by
+  intro c tr
+  have h0 := inv_mk .lfu cap expiry protCap winCap hcap
+  have hJ0 : LfuOk (mk .lfu cap expiry protCap winCap) [] :=
+    ⟨[], rfl, fun j => rfl, List.Pairwise.nil⟩
+  obtain ⟨e, hp, hcnt, hs⟩ := lfu_run h0 hJ0 ops
+  rw [List.nil_append] at hcnt hs
+  have hi := (run_inv h0 ops).1
+  have hnd : (mkeys e).Nodup := by have := hi.polNodup; rw [hp] at this; exact this
+  have hsame : ∀ k, k ∈ mkeys e ↔ k ∈ keysOf c.items := by
+    intro k; have := hi.same k; rw [hp] at this; exact this
+  refine ⟨e, hp, hnd, hsame, ?_, ?_, hs⟩
+  · intro k f hm
+    have := hcnt k
+    rw [find_of_mem_nodup hnd hm] at this
+    unfold useCount; rw [this]; rfl
+  · intro k hk
+    have hf : find e k = none := find_none_iff.mpr (fun hm => hk ((hsame k).mp hm))
+    have := hcnt k
+    rw [hf] at this
+    unfold useCount; rw [this]; rfl
+
+/-- **the LFU victim has the smallest use count, and among equals is the least recently used**:
+after any history, every other live key either has been used strictly more often since its
+admission than the victim, or equally often and more recently. -/
+theorem lfu_victim_min_count_then_oldest (cap expiry protCap winCap : Nat) (hcap : 1 ≤ cap)
+    (ops : List (Op × (Nat → Bool))) (b : Bool) (v : Nat)
+    (hv : ((reach .lfu cap expiry protCap winCap ops).1.pol.victim b).1 = some v) :
+    let c := (reach .lfu cap expiry protCap winCap ops).1
+    let tr := trace (mk .lfu cap expiry protCap winCap) ops
+    v ∈ keysOf c.items ∧ ∀ k, k ∈ keysOf c.items → k ≠ v →
+      useCount v tr < useCount k tr ∨ (useCount v tr = useCount k tr ∧ lastTouch v tr < lastTouch k tr) := by
+  intro c tr
+  obtain ⟨e, hp, hnd, hsame, hcnt, _, hasc⟩ := lfu_counts_are_use_counts cap expiry protCap winCap hcap ops
+  have hv' : (Pol.victim (.lfu e) b).1 = some v := by
+    have : (reach .lfu cap expiry protCap winCap ops).1.pol = .lfu e := hp
+    rw [this] at hv; exact hv
+  obtain ⟨f, pre, post, he, hmin, hpre⟩ := lfu_victim_is_least_frequent_then_oldest e v b hv'
+  have hvm : (v, f) ∈ e := by rw [he]; simp
+  have hfv : f = useCount v tr := hcnt v f hvm
+  refine ⟨(hsame v).mp (List.mem_map.mpr ⟨(v, f), hvm, rfl⟩), ?_⟩
+  intro k hk hne
+  obtain ⟨p, hpm, hpk⟩ := List.mem_map.mp ((hsame k).mpr hk)
+  have hpe : p = (k, p.2) := by rw [← hpk]
+  have hg : p.2 = useCount k tr := hcnt k p.2 (by rw [← hpe]; exact hpm)
+  have hle := hmin p hpm
+  rw [← hfv, ← hg]
+  by_cases hlt : f < p.2
+  · exact Or.inl hlt
+  · right
+    have heq : f = p.2 := by omega
+    refine ⟨heq, ?_⟩
+    rw [he] at hpm
+    rcases List.mem_append.mp hpm with h1 | h1
+    · exact absurd heq.symm (hpre p h1)
+    · rcases List.mem_cons.mp h1 with h2 | h2
+      · exfalso; apply hne; rw [← hpk, h2]
+      · have hk2 : k ∈ mkeys post := List.mem_map.mpr ⟨p, h2, hpk⟩
+        have : mkeys e = mkeys pre ++ v :: mkeys post := by rw [he]; simp [mkeys]
+        rw [this, List.pairwise_append] at hasc
+        have := (List.pairwise_cons.mp hasc.2.1).1 k hk2
+        exact this
+
+/-- non-vacuity: a concrete LFU history with its use counts, last-touch stamps and victim (keys 3 and
+2 both have count 1 — key 2 was deleted and re-admitted — and 3 was used less recently). -/
+example :
+    let ops : List (Op × (Nat → Bool)) := [(.set 1 10, fun _ => false), (.set 2 20, fun _ => false),
+      (.get 1, fun _ => false), (.set 3 30, fun _ => false), (.del 2, fun _ => false), (.set 2 22, fun _ => false)]
+    let tr := trace (mk .lfu 3 0 0 0) ops
+    (reach .lfu 3 0 0 0 ops).1.pol = .lfu [(1, 2), (3, 1), (2, 1)] ∧
+    [useCount 1 tr, useCount 3 tr, useCount 2 tr, useCount 7 tr] = [2, 1, 1, 0] ∧
+    [lastTouch 1 tr, lastTouch 3 tr, lastTouch 2 tr] = [3, 4, 6] ∧
+    ((reach .lfu 3 0 0 0 ops).1.pol.victim false).1 = some 3 := by decide
+
+end Frequency
 
 end AsherahVerif.Props.C15
